@@ -5,9 +5,9 @@
      -- `bounded_write` runs it over a LIST OF CHUNKS: serde_json decides how the serialisation is split into
      `write` calls; the theorems quantify over every chunking of the same bytes;
    * `MethodResponse::response(id, payload, max)`: serialise `Response::new(payload, id)` into the bounded writer;
-     Ok -> those bytes; io error -> the -32008 error object (message "Response is too big", data the JSON string
-     "Exceeded max limit of <max>") with the call's id, built WITHOUT a size check; a non-io serialiser error ->
-     -32603 with the call's id.  The byte layout `{"jsonrpc":"2.0","id":<id>,"result":<raw>}` /
+     Ok -> those bytes; io error -> the oversized-response error object (code, message and the prefix of its data
+     string "<prefix><max>" are `oversized_response_shape`, read from that very arm by tools/translators/error_consts.py)
+     with the call's id, built WITHOUT a size check; a non-io serialiser error -> ErrorCode::InternalError with the call's id.  The byte layout `{"jsonrpc":"2.0","id":<id>,"result":<raw>}` /
      `...,"error":{"code":..,"message":..[,"data":..]}}` is `Wire.ser_response` (C15's model, diffed against the code);
    * `MethodResponse::error(id, err)`: the same layout, no size check;
    * `BatchResponseBuilder::{new_with_limit, append, finish}` and the loop of `RpcService::batch`.
@@ -19,8 +19,12 @@
 
    Payloads are raw JSON texts (what the handler's `Serialize` emits); `RFail partial` is a serialiser that emits
    `partial` and then fails.  Left out: extensions, `on_close` notification, `ResponseKind` flags, subscription
-   notifications (not responses to a call). *)
-From JV Require Import Base.Bytes Base.Dec Json.Json Json.JsonSer Model.Wire Gen.LimitsWiringGen.
+   notifications (not responses to a call).
+
+   No protocol constant is written here: codes, messages and data prefixes of the library's error objects come from
+   Gen/ErrorConstsGen.v (regenerated from types/src/error.rs and method_response.rs), through Model/ErrShape.v. *)
+From JV Require Import Base.Bytes Base.Dec Json.Json Json.JsonSer Model.Wire Model.ErrShape Gen.LimitsWiringGen
+  Gen.ErrorConstsGen.
 Local Open Scope N_scope.
 
 (* ---------- BoundedWriter ---------- *)
@@ -51,16 +55,13 @@ Definition full_ser (i : id) (p : rpayload) : bytes :=
   | RFail partial => b#"{""jsonrpc"":""2.0"",""id"":" ++ ser_id i ++ b#",""result"":" ++ partial
   end.
 
-Definition exceeded_data (max : N) : bytes := ser_str (b#"Exceeded max limit of " ++ print_N max).
-
-Definition oversized_response_error (max : N) : errobj :=
-  {| e_code := (-32008)%Z; e_message := b#"Response is too big"; e_data := Some (exceeded_data max) |}.
-Definition internal_error : errobj :=
-  {| e_code := (-32603)%Z; e_message := b#"Internal error"; e_data := None |}.
-Definition invalid_request_error : errobj :=
-  {| e_code := (-32600)%Z; e_message := b#"Invalid request"; e_data := None |}.
-Definition too_big_batch_response_error (max : N) : errobj :=
-  {| e_code := (-32011)%Z; e_message := b#"The batch response was too large"; e_data := Some (exceeded_data max) |}.
+(* the io-error arm of MethodResponse::response *)
+Definition oversized_response_error (max : N) : errobj := shape_err oversized_response_shape max.
+(* ErrorObject::from(ErrorCode::InternalError) / ::InvalidRequest *)
+Definition internal_error : errobj := fixed_err from_internal_error_shape.
+Definition invalid_request_error : errobj := fixed_err from_invalid_request_shape.
+(* reject_too_big_batch_response(max) *)
+Definition too_big_batch_response_error (max : N) : errobj := shape_err reject_too_big_batch_response_shape max.
 
 (* MethodResponse::error(id, err) *)
 Definition error_response (i : id) (e : errobj) : bytes := mk_response i (PError e).
@@ -72,9 +73,9 @@ Definition method_response_chunked (chunks : list bytes) (i : id) (p : rpayload)
     match p with
     | RResult _ => (b, FSuccess)
     | RError e => (b, FFailed (e_code e))
-    | RFail _ => (error_response i internal_error, FFailed (-32603)%Z)
+    | RFail _ => (error_response i internal_error, FFailed (sh_code from_internal_error_shape))
     end
-  | None => (error_response i (oversized_response_error max), FFailed (-32008)%Z)
+  | None => (error_response i (oversized_response_error max), FFailed (sh_code oversized_response_shape))
   end.
 
 Definition method_response (i : id) (p : rpayload) (max : N) : bytes * flag :=
@@ -137,13 +138,13 @@ Definition http_batch_reply (e : ep) (c : cfg) (rs : list bytes) : option bytes 
 
 (* the library's fixed error objects that are built without a size check (MethodResponse::error) *)
 Definition fixed_errors (lim : N) : list errobj :=
-  [ {| e_code := (-32700)%Z; e_message := b#"Parse error"; e_data := None |};
+  [ fixed_err from_parse_error_shape;
     invalid_request_error;
-    {| e_code := (-32601)%Z; e_message := b#"Method not found"; e_data := None |};
+    fixed_err from_method_not_found_shape;
     internal_error;
-    {| e_code := (-32005)%Z; e_message := b#"Batched requests are not supported by this server"; e_data := None |};
-    {| e_code := (-32006)%Z; e_message := b#"Too many subscriptions on the connection"; e_data := Some (exceeded_data lim) |};
-    {| e_code := (-32007)%Z; e_message := b#"Request is too big"; e_data := Some (exceeded_data lim) |};
+    fixed_err (batches_not_supported_code, batches_not_supported_msg, None);
+    shape_err reject_too_many_subscriptions_shape lim;
+    shape_err reject_too_big_request_shape lim;
     oversized_response_error lim;
-    {| e_code := (-32010)%Z; e_message := b#"The batch request was too large"; e_data := Some (exceeded_data lim) |};
+    shape_err reject_too_big_batch_request_shape lim;
     too_big_batch_response_error lim ].
